@@ -3,6 +3,8 @@
 \* atoms, 3 user keys, 4 keys needing escaping x 6 shapes, 18 well-known pairs), all ordered pairs over 24
 \* core properties (duplicates, F17 trigger, ids, re-entrant value, escaped key); 24 metric headers
 \* (agg x value shape).  Transcription with the F8/F9 repairs; F17 carved out.
+\* + empty / backwards range extents (every metric header, a few extras per kind); map keys: text, bool,
+\* i64, f64, bytes, sequence.
 SPECIFICATION Spec
 CONSTANTS
     Events <- MC_Events
